@@ -7,7 +7,7 @@
      symbols in positional order and its return value is the result;
  (4) KGFnWrapper.__call__: wrong argument count raises before anything is evaluated; the current definition of the symbol is
      used when it is still a function, the original otherwise; the call made is klong.call(KGCall(fn.a, args, fn.arity)),
-     exactly once, with the arguments in order (lists converted by np.asarray).
+     exactly once, with the arguments in order (Python lists converted by the interpreter's own kg_asarray).
 """
 import z3
 from pyvc.values import *
@@ -34,8 +34,8 @@ def build(reg, src):
         "sys_fn._handle_import (arity remapping through inspect.Parameter kinds) and KGFnWrapper._find_symbol are not under contract",
         "attributes a / args / arity / fn of function objects are not written by the functions under contract (read as functions of the object)",
     ]
-    reg.assumed_calls.update({'safe_inspect': 'nonnull', 'np.asarray': 'nonnull'})
-    reg.pure_calls |= {'safe_inspect', 'np.asarray'}
+    reg.assumed_calls.update({'safe_inspect': 'nonnull', 'np.asarray': 'nonnull', 'self.klong._backend.kg_asarray': 'nonnull'})
+    reg.pure_calls |= {'safe_inspect', 'np.asarray', 'self.klong._backend.kg_asarray'}
 
     # ---------------- KGLambda
     def lam_setup(eng, st):
@@ -163,7 +163,9 @@ def build(reg, src):
         for i in range(n):
             x = s.args0.items[i]
             islist = x.pred('isinst:list')
-            parts.append(If(islist, same(cargs.items[i], VOpaque(z3.Function('assumed:np.asarray', Obj, Obj)(x.t))), same(cargs.items[i], x)))
+            # a Python list becomes the Klong list it denotes: the interpreter's OWN list conversion (kg_asarray - strings stay strings,
+            # ragged and mixed lists stay lists), not NumPy's homogenising asarray
+            parts.append(If(islist, same(cargs.items[i], VOpaque(z3.Function('assumed:self.klong._backend.kg_asarray', Obj, Obj)(x.t))), same(cargs.items[i], x)))
         return And(*parts)
 
     def wrap_exc(s, e):
